@@ -214,4 +214,74 @@ BENIGN = [
     };
 
     let adf_problem = match adf_coll""", nth=0, silent=["C17", "C16"]),
+    # ---- more rewrites of pattern-matched code
+    dict(name="b-stability-check-zip-all", file=ADF, old="""        let grd = self.grounded_internal(&new_int);
+        for (idx, grd) in grd.iter().enumerate() {
+            if !grd.compare_inf(&interpretation[idx]) {
+                return false;
+            }
+        }
+        true
+    }""", new="""        let grd = self.grounded_internal(&new_int);
+        grd.iter()
+            .zip(interpretation.iter())
+            .all(|(grd, int)| grd.compare_inf(int))
+    }""", silent=["C03", "C04", "C05"]),
+    dict(name="b-regenerate-for-loop", file=PARSER, old="""        self.namelist
+            .read()
+            .expect("ReadLock on namelist failed")
+            .iter()
+            .enumerate()
+            .for_each(|(i, elem)| {
+                self.dict
+                    .write()
+                    .expect("WriteLock on dict failed")
+                    .insert(elem.clone(), i);
+            });
+    }""", new="""        let names = self.namelist.read().expect("ReadLock on namelist failed");
+        let mut dict = self.dict.write().expect("WriteLock on dict failed");
+        for (i, elem) in names.iter().enumerate() {
+            dict.insert(elem.clone(), i);
+        }
+    }""", silent=["C10", "C15"]),
+    dict(name="b-passive-impact-filter-count", file=OBDD, old="""        termlist.iter().fold(0usize, |acc, val| {
+            if self.var_dependencies(*val).contains(&var) {
+                acc + 1
+            } else {
+                acc
+            }
+        })""", new="""        termlist
+            .iter()
+            .filter(|val| self.var_dependencies(**val).contains(&var))
+            .count()""", silent=["C13"]),
+    dict(name="b-bridge-named-children", file=ADF, old="""                            let new_term = result.bdd.node(
+                                Var(node_elements[0]
+                                    .parse::<usize>()
+                                    .expect("Var should be number")),
+                                term_vec[node_elements[1]
+                                    .parse::<usize>()
+                                    .expect("Termpos should be a valid number")],
+                                term_vec[node_elements[2]
+                                    .parse::<usize>()
+                                    .expect("Termpos should be a valid number")],
+                            );""", new="""                            let var = Var(node_elements[0]
+                                .parse::<usize>()
+                                .expect("Var should be number"));
+                            let lo = term_vec[node_elements[1]
+                                .parse::<usize>()
+                                .expect("Termpos should be a valid number")];
+                            let hi = term_vec[node_elements[2]
+                                .parse::<usize>()
+                                .expect("Termpos should be a valid number")];
+                            let new_term = result.bdd.node(var, lo, hi);""", silent=["C09", "C01", "C06"]),
+    dict(name="b-dto-named-locals", file=SADF, old="""        Self {
+            var: source.var().0.to_string(),
+            lo: source.lo().0.to_string(),
+            hi: source.hi().0.to_string(),
+        }""", new="""        let (var, lo, hi) = (source.var(), source.lo(), source.hi());
+        Self {
+            var: var.0.to_string(),
+            lo: lo.0.to_string(),
+            hi: hi.0.to_string(),
+        }""", silent=["C14", "C16"]),
 ]
